@@ -142,30 +142,117 @@ def _a3(ctx):
     ctx.floor(R, 5)
 
 
-def _a5(ctx):
-    R = "C14-A5"
-    ctx.doc(R, "OptimalityThresholder drops a row only if some reference point is strictly better in every compared column")
+ROW_PRESERVING = {"sort_values", "copy", "reset_index", "drop_duplicates", "head", "tail", "to_numpy", "astype", "_apply_edp_columns", "sort_index", "asarray", "array"}
+COLUMNWISE = {"sort", "sorted", "max", "min", "cummax", "cummin", "maximum", "minimum", "quantile", "percentile", "mean", "median", "apply", "transform", "accumulate", "nanmax", "nanmin", "amax", "amin", "agg", "aggregate", "partition", "argsort"}
+
+
+_VISITING: set = set()
+
+
+def _row_table(e, binds, depth=0):
+    """'rows'  : e is the previous-solution table with whole rows intact (reordered/subset at most)
+       'cols'  : e was produced by an operation that treats columns independently (rows of e mix different solutions)
+       None    : unrecognised"""
+    if depth > 24:
+        return None
+    if isinstance(e, ast.Name):
+        vs = binds.get(e.id)
+        if not vs:
+            return None
+        if e.id in _VISITING:
+            return "self"
+        _VISITING.add(e.id)
+        try:
+            kinds = {_row_table(v, binds, depth + 1) for v in vs}
+        finally:
+            _VISITING.discard(e.id)
+        kinds.discard("self")
+        return "cols" if "cols" in kinds else ("rows" if kinds == {"rows"} else None)
+    if isinstance(e, ast.Attribute):
+        if e.attr in ("values", "T"):
+            return _row_table(e.value, binds, depth + 1) if e.attr == "values" else None
+        if e.attr == "data":
+            return "rows"      # Mappings.data: the table of previous solutions itself
+        return None
+    if isinstance(e, ast.Subscript):
+        return _row_table(e.value, binds, depth + 1)
+    if isinstance(e, ast.UnaryOp):
+        return _row_table(e.operand, binds, depth + 1)
+    if isinstance(e, ast.Call):
+        name = call_name(e)
+        inner = [a for a in list(e.args) + ([e.func.value] if isinstance(e.func, ast.Attribute) else [])]
+        kinds = [_row_table(a, binds, depth + 1) for a in inner]
+        if "cols" in kinds:
+            return "cols"
+        kinds = ["rows" if k == "self" else k for k in kinds]
+        if name in COLUMNWISE and "rows" in kinds:
+            # DataFrame.sort_values is row-wise; np.sort / Series.sort / max ... are per column
+            return "cols"
+        if name in ROW_PRESERVING and "rows" in kinds:
+            return "rows"
+        return None
+    return None
+
+
+def _a5(ctx, R="C14-A5"):
+    ctx.doc(R, "OptimalityThresholder drops a row only if some reference point -- a whole previous solution -- is strictly better in every compared column; no other filter is applied")
     fi = ctx.func(JP, "OptimalityThresholder.__call__", R)
+    cfg = ctx.cfg(fi)
     ors = [s for s in fi.stmts() if isinstance(s, ast.AugAssign) and norm(s.target) == "nondominated"]
-    ctx.require(len(ors) == 2, R, f"per-column accumulations {len(ors)}")
+    ctx.require(len(ors) >= 1, R, f"per-column accumulations {len(ors)}")
+    member = ("k in edp_mapping.columns",)
+    guarded_cmp, true_else = [], []
     for s in ors:
         ctx.check(isinstance(s.op, ast.BitOr), R, fi, s, "per-column results are combined with `&=`: a row must beat the reference in EVERY column to survive, so non-dominated rows are dropped", "per column: |=")
         v = s.value
+        conds = [(norm(h.ast.test), lab) for h, lab in cfg.control_conditions(cfg.node_of(s)) if h.kind == "if"]
         if isinstance(v, ast.Compare):
             ok = isinstance(v.ops[0], ast.LtE) and norm(v.comparators[0]) == "v" and "edp_mapping[k]" == norm(v.left)
             ctx.check(ok, R, fi, s, f"`{norm(v)}`: a row equal to the reference in this column is treated as dominated (or the comparison is reversed)", "row survives when row <= reference in some column")
+            if any(c in member and lab == "true" for c, lab in conds):
+                guarded_cmp.append(s)
         else:
             ctx.check(isinstance(v, ast.Constant) and v.value is True, R, fi, s, "a column missing from the row table does not count as non-dominated", "missing column => non-dominated")
+            if any(c in member and lab == "false" for c, lab in conds):
+                true_else.append(s)
+    for s in guarded_cmp:
+        ctx.check(bool(true_else), R, fi, s, "columns missing from the row table are skipped instead of counting as non-dominated: a pmapping that lacks a compared column (its cost there is zero) "
+                  "is dropped although no reference point beats it", "column absent from the rows => `|= True` on the other branch")
     ands = [s for s in fi.stmts() if isinstance(s, ast.AugAssign) and norm(s.target) == "nondominated_by_all"]
     ctx.require(len(ands) >= 1, R, "across-reference accumulation")
     for s in ands:
         ctx.check(isinstance(s.op, ast.BitAnd), R, fi, s, "results across reference points are not combined with &=", "across reference points: &=")
+        v = norm(s.value)
+        ok = v in ("nondominated", "self._pmapping_row_filter_function(mapping)")
+        ctx.check(ok, R, fi, s, f"rows are additionally filtered by `{v}`: only the per-reference-point mask and the caller's row filter may remove rows; any other test (bounding boxes, per-column "
+                  "extremes) can drop a row that no previous solution dominates", "only the per-reference mask / the caller's filter remove rows")
+    loops = [s for s in fi.stmts() if isinstance(s, ast.For)]
+    ok = [norm(l.iter) for l in loops] == ["self.compare_to", "c.items()"]
+    ctx.check(ok, R, fi, loops[0] if loops else fi.node, "the mask is not built by visiting every reference point and every compared column of it", "for every reference point, for every column")
     init = {norm(t): norm(v) for s in fi.stmts() for t, v, _ in assigned_targets(s) if isinstance(t, ast.Name) and not isinstance(s, ast.AugAssign)}
     ok = init.get("nondominated_by_all", "").startswith("np.ones(") and init.get("nondominated", "").startswith("np.zeros(")
     ctx.check(ok, R, fi, fi.node.body[0], "accumulators do not start from all-true (across points) / all-false (per column)", "neutral initial masks")
     edp = init.get("edp_mapping", "")
     ctx.check("_apply_edp_columns(mapping.copy(), self.metrics)" == edp, R, fi, fi.node.body[1], "rows and reference points are not compared in the same (EDP-rewritten) columns", "same column rewrite on both sides")
-    ctx.floor(R, 6)
+    # reference points are whole rows of the previous front
+    ini = ctx.func(JP, "OptimalityThresholder.__init__", R)
+    binds = {}
+    for s in ini.stmts():
+        for t, v, _ in assigned_targets(s):
+            if isinstance(t, ast.Name) and v is not None:
+                binds.setdefault(t.id, []).append(v)
+    apps = [c for c in ini.calls("append") if norm(c.func.value) == "self.compare_to"]
+    ctx.require(len(apps) == 1 and apps[0].args, R, f"reference point construction sites {len(apps)}")
+    point = apps[0].args[0]
+    skip = {"compare_cols", "c", "i", "dict", "zip", "float"}
+    srcs = [x for x in ast.walk(point) if isinstance(x, ast.Name) and x.id not in skip]
+    ctx.require(srcs, R, "reference point does not read a table")
+    for x in srcs:
+        kind = _row_table(x, binds)
+        ctx.require(kind is not None, R, f"provenance of `{x.id}` in the reference point")
+        ctx.check(kind == "rows", R, ini, apps[0], f"reference points are read from `{x.id}`, which was produced by a per-column operation (np.sort / max / ... over the solution table): "
+                  "a point mixing the columns of different solutions can dominate rows that no actual solution dominates", f"`{x.id}`: whole rows of the previous solutions (reordered at most)")
+    ctx.floor(R, 12)
 
 
 def _a6(ctx):
@@ -204,11 +291,25 @@ def _a6(ctx):
                       "untracked across joins only when never backing and never above a fused loop")
         else:
             ctx.bad(R, g, a, f"a memory is removed from capacity tracking under {conds}: neither `usage <= 1` nor `not must_track`")
+    sc = [(s, v) for s in g.stmts() for t, v, _ in assigned_targets(s) if isinstance(t, ast.Name) and t.id == "scale" and not isinstance(s, ast.AugAssign)]
+    ctx.require(len(sc) == 2, R, f"scale definitions {len(sc)}")
+    from ..norm import Normaliser as _N
+    v = sc[1][1]
+    want = _N().poly(ast.parse("spec.workload.n_instances * einsum.n_instances", mode="eval").body)
+    ok = const_num(sc[0][1]) == 1 and isinstance(v, ast.Call) and call_name(v) == "max" and len(v.args) == 2 and sorted([norm(a) == "scale" for a in v.args]) == [False, True] and \
+        [_N().poly(a) for a in v.args if norm(a) != "scale"][0] == want
+    ctx.check(ok, R, g, sc[1][0], f"a persistent tensor's footprint is scaled by `{norm(v)}`, not by max over its Einsums of workload.n_instances x einsum.n_instances: the usage bound under-counts "
+              "copies that stay resident, and a memory that can overflow is left untracked", "persistent tensors counted once per workload x Einsum instance")
+    conds = [(norm(h.ast.test), lab) for h, lab in gcfg.control_conditions(gcfg.node_of(sc[1][0])) if h.kind == "if"]
+    ctx.check(("einsum.tensor_accesses[tensor].persistent", "true") in conds, R, g, sc[1][0], f"the instance scale is applied under {conds}, not under the access's `persistent` flag", "scale applied to persistent accesses")
+    tsz = [s for s in g.stmts() for t, v, _ in assigned_targets(s) if norm(t) == "tensor_sizes[tensor]"]
+    ok = len(tsz) == 1 and _N().poly(tsz[0].value) == _N().poly(ast.parse("size * scale", mode="eval").body)
+    ctx.check(ok, R, g, tsz[0] if tsz else g.node, "tensor_sizes[tensor] is not size x scale", "tensor footprint = size x scale")
     us = [s for s in g.stmts() if isinstance(s, ast.AugAssign) and norm(s.target) == "usage"]
     from ..norm import Normaliser
     ok = len(us) == 1 and isinstance(us[0].op, ast.Add) and Normaliser().poly(us[0].value) == Normaliser().poly(ast.parse("tensor_sizes[tensor] * effective_bpv / mem.size", mode="eval").body)
     ctx.check(ok, R, g, us[0] if us else g.node, "the usage bound is not the sum over tensors of size x bits per value / memory size", "usage = sum of tensor bits / size")
-    ctx.floor(R, 6)
+    ctx.floor(R, 9)
 
 
 def _a7(ctx):
@@ -251,6 +352,12 @@ def check(ctx):
 
 
 VARIANTS = [
+    {"kind": "F", "name": "missing-column-skipped", "rule": "C14-A5", "edits": [(JP, "                if k not in edp_mapping.columns:\n                    nondominated |= True\n                else:\n                    nondominated |= edp_mapping[k] <= v", "                if k in edp_mapping.columns:\n                    nondominated |= edp_mapping[k] <= v")]},
+    {"kind": "F", "name": "bounding-box-prefilter", "rule": "C14-A5", "edits": [(JP, "        for c in self.compare_to:\n            nondominated = np.zeros", "        for k0, v0 in self.compare_to[0].items():\n            if k0 in edp_mapping.columns:\n                nondominated_by_all &= (edp_mapping[k0] <= v0).to_numpy()\n        for c in self.compare_to:\n            nondominated = np.zeros")]},
+    {"kind": "F", "name": "per-column-sorted-reference", "rule": "C14-A5", "edits": [(JP, "        compare_to = compare_to.sort_values(by=compare_cols, ascending=False)\n", "        compare_to = pd.DataFrame(-np.sort(-compare_to[compare_cols].to_numpy(dtype=float), axis=0), columns=compare_cols)\n")]},
+    {"kind": "F", "name": "persistent-scale-einsum-only", "rule": "C14-A6", "edits": [(MP, "                scale = max(scale, spec.workload.n_instances * einsum.n_instances)", "                scale = max(scale, einsum.n_instances)")]},
+    {"kind": "S", "name": "reference-rows-not-sorted", "edits": [(JP, "        compare_to = compare_to.sort_values(by=compare_cols, ascending=False)\n", "        compare_to = compare_to.reset_index(drop=True)\n")]},
+    {"kind": "S", "name": "reference-row-via-iloc-row", "edits": [(JP, "            self.compare_to.append({c: compare_to[c].iloc[i] for c in compare_cols})", "            self.compare_to.append({c: compare_to.iloc[i][c] for c in compare_cols})")]},
     {"kind": "F", "name": "drop-trailing-zero", "rule": "C14-A1", "edits": [(JP, "        0.00001,\n        0,  # Give up, do full precision join\n", "        0.00001,\n")]},
     {"kind": "F", "name": "return-inside-scan", "rule": "C14-A3", "edits": [(JP, "            if is_reservation_col(c):\n                maxvalue = joined.data[c].max()", "            if not is_reservation_col(c):\n                return joined\n            if is_reservation_col(c):\n                maxvalue = joined.data[c].max()")]},
     {"kind": "F", "name": "swallow-final-exception", "rule": "C14-A4", "edits": [(JP, "            if i == len(thresholds) - 1:\n                raise\n            if print_progress:\n                print(f\"Error with optimality", "            if print_progress:\n                print(f\"Error with optimality")]},
